@@ -30,6 +30,11 @@ def Op.isReopen : Op → Bool
   | .reopen _ => true
   | _ => false
 
+/-- the block's length fits gocoin's uint32 length fields (blocks are at most 4 MB) -/
+def Op.sizeOK : Op → Prop
+  | .add _ _ _ _ raw => raw.length ≤ 0xffffffff
+  | _ => True
+
 def specStep (sp : Spec) (op : Op) : Spec :=
   match op with
   | .reopen _ => if sp.isOpen then sp else { sp with isOpen := true }
@@ -82,5 +87,24 @@ def Claim.holds : Claim → Out → Prop
 def specRun : Spec → List Op → List Claim
   | _, [] => []
   | sp, op :: ops => claim sp op :: specRun (specStep sp op) ops
+
+/-- every reply satisfies the claim made for its operation (the two lists have the same length) -/
+def AllHold : List Claim → List Out → Prop
+  | [], [] => True
+  | c :: cs, o :: os => c.holds o ∧ AllHold cs os
+  | _, _ => False
+
+theorem AllHold.get {cs : List Claim} {os : List Out} (h : AllHold cs os) (i : Nat) (c : Claim) (o : Out)
+    (hc : cs[i]? = some c) (ho : os[i]? = some o) : c.holds o := by
+  induction cs generalizing os i with
+  | nil => simp at hc
+  | cons c0 cs ih =>
+    cases os with
+    | nil => simp at ho
+    | cons o0 os =>
+      obtain ⟨h1, h2⟩ := h
+      cases i with
+      | zero => simp at hc ho; subst hc; subst ho; exact h1
+      | succ i => simp at hc ho; exact ih h2 i hc ho
 
 end GocoinV.BlockDB
